@@ -460,6 +460,34 @@ pub fn add_sections(rep: &mut Report, prop: &str, thorough: bool, conformant_onl
         rep.add(sec);
     }
     {
+        // one number / one instant in two places of a list: a revoked serial equal to the CRL number, to the issuer certificate's
+        // own serial number, to the pre-specified key identifier; a revocation date equal to thisUpdate / to nextUpdate; the
+        // invalidity date equal to thisUpdate
+        let issuer_serial: Vec<u8> = refmodel::x509::decode_cert(iss.list[0].cert.der()).value.map(|a| a.serial.clone()).unwrap_or_else(|| vec![1]);
+        let mut numbers = serial_atoms();
+        numbers.push(issuer_serial);
+        let cases: Vec<(usize, u8)> = (0..numbers.len()).flat_map(|n| (0..4u8).map(move |k| (n, k))).collect();
+        let sec = Section::new("crl/sweep/one value in two places", "7 numbers (among them the issuer certificate's own serial number) as CRL number AND as a revoked serial (alone, first of three, last of three) AND as pre-specified key identifier; the entry's dates equal to thisUpdate / nextUpdate: the list still says each field as given and revokes exactly the listed serials");
+        run::sweep_cases(&sec, &cases, &|c| format!("number {:02x?} shape {}", numbers[c.0], c.1), &|c| {
+            let n = numbers[c.0].clone();
+            let mut st = CrlState::default();
+            let other = |b: u8| RevokedSpec { serial: vec![0x55, b], time: TimeSpec::ymd(2023, 6, 1), reason: Some(1), invalidity: None };
+            let same = RevokedSpec { serial: n.clone(), time: if c.1 % 2 == 0 { st.this_update } else { st.next_update }, reason: None, invalidity: Some(st.this_update) };
+            st.crl_number = n.clone();
+            st.revoked = match c.1 {
+                0 => vec![same],
+                1 => vec![same, other(1), other(2)],
+                2 => vec![other(1), other(2), same],
+                _ => vec![same.clone(), other(1), same],
+            };
+            if c.1 >= 2 && !n.is_empty() {
+                st.key_id = KeyIdSpec::Pre(n.clone());
+            }
+            judge(prop, &known, &CrlCase { st, issuer: 0 }, &iss, true)
+        });
+        rep.add(sec);
+    }
+    {
         // all 512 issuer key-usage subsets x 3 update orderings
         // ... x what the issuer's certificate says about being a CA (the rule about declared key usages does not depend on it)
         let roles = [IsCaSpec::Unconstrained, IsCaSpec::NoCa, IsCaSpec::ExplicitNoCa, IsCaSpec::Constrained(0)];
